@@ -81,6 +81,11 @@ def gen_case(rng, index, tier):
     case['reply'] = reply
     case['trashes'] = [t['rel'] for t in trashes]
     case['extras'] = extras
+    if mode in ('i-neg', 'i-pos') and rng.random() < 0.3:
+        # -f given BEFORE -i: the last of the two wins (as for rm), the
+        # question is asked
+        case['iopt'] = rng.choice([['-f', '-i'], ['-fi'], ['-f', '--interactive'],
+                                   ['-i', '-f', '-i']])
     if mode == 'dry' and rng.random() < 0.3:
         # a terminal / locale that cannot show every name: whatever a dry run
         # then prints (or refuses to print), it removes nothing
@@ -126,7 +131,9 @@ def run_case(case):
         elif mode.startswith('i-'):
             data = b'' if case['reply'] is None else \
                 (case['reply'] + '\n').encode('utf-8')
-            r = run.run(w, 'empty', args + ['-i'], stdin=data)
+            if case.get('iopt'):
+                obs['force_then_interactive'] = 1
+            r = run.run(w, 'empty', args + (case.get('iopt') or ['-i']), stdin=data)
         elif mode == 'pty-f':
             r = run.run(w, 'empty', args + ['-f'], stdin=b'', pty_stdin=True)
         else:
